@@ -1,3 +1,2 @@
 import Rfsm.Model.Wire
 import Rfsm.Model.Descriptor
-import Rfsm.Model.Timer
